@@ -25,8 +25,7 @@ theorem any_append (A B : List Sel) :
 theorem list_union (A B : List Sel) (h : Bool) :
     matchList c l e (.mk (A ++ B) false h) =
       (matchList c l e (.mk A false h) || matchList c l e (.mk B false h)) := by
-  simp only [matchList_mk, matchAny_append]
-  split <;> simp
+  simp only [matchList_pos, matchAny_append, Bool.and_or_distrib_left]
 
 /-- The matcher never accepts `SelectorNull`. -/
 theorem null_never : matchSel c l e .null = false := by
@@ -40,29 +39,45 @@ theorem any_perm {A B : List Sel} (hp : List.Perm A B) : matchAny c l e A = matc
 /-- … and so is it for a whole list (negated or not, HTML-only or not). -/
 theorem list_perm {A B : List Sel} (hp : List.Perm A B) (n h : Bool) :
     matchList c l e (.mk A n h) = matchList c l e (.mk B n h) := by
-  simp only [matchList_mk, matchAny_perm _ l e hp]
+  have he : A.isEmpty = B.isEmpty := by
+    have := hp.length_eq
+    cases A <;> cases B <;> simp_all
+  simp only [matchList_mk, matchAny_perm _ l e hp, he]
 
-/-- A `SelectorNull` alternative can be dropped. -/
-theorem null_alternative (A : List Sel) (n h : Bool) :
+/-- A `SelectorNull` alternative can be dropped from a list that is not negated, or that has
+    another alternative. -/
+theorem null_alternative (A : List Sel) (n h : Bool) (hA : A ≠ [] ∨ n = false) :
     matchList c l e (.mk (.null :: A) n h) = matchList c l e (.mk A n h) := by
   simp only [matchList_mk, matchAny_cons]
-  split <;> simp [matchSel]
+  cases A with
+  | nil =>
+    rcases hA with hA | hA
+    · exact absurd rfl hA
+    · subst hA; split <;> simp [matchSel, matchAny_nil]
+  | cons s rest => split <;> simp [matchSel]
 
-/-- The empty list of alternatives matches nothing (`:is()`), its negation everything in an
-    admissible document (`:not()`). -/
-theorem empty_list (n h : Bool) :
-    matchList c l e (.mk [] n h) = ((!h || c.isHtml) && n) := by
-  simp only [matchList_mk, matchAny_nil]
-  split <;> simp_all
+/-- `:not(<SelectorNull>)` (what a forgiving empty `:not()` would compile to) matches every
+    element of an admissible document; `:is(<SelectorNull>)` (what `:is()` compiles to) nothing. -/
+theorem null_only (n h : Bool) :
+    matchList c l e (.mk [.null] n h) = ((!h || c.isHtml) && n) := by
+  simp only [matchList_mk, matchAny_cons, matchAny_nil]
+  split <;> simp_all [matchSel]
+
+/-- The empty list of alternatives matches nothing — *also when negated*: Python's
+    `match = False` is only overwritten inside the loop. -/
+theorem empty_list (n h : Bool) : matchList c l e (.mk [] n h) = false := by
+  simp [matchList_mk]
 
 /-! ### Negation: complement -/
 
-/-- `:not(A)` is the complement of `:is(A)` — whenever the list is admissible in this document
-    (not HTML-only, or the document is HTML). -/
-theorem not_compl_html (A : List Sel) (h : Bool) (hg : (!h || c.isHtml) = true) :
+/-- `:not(A)` is the complement of `:is(A)` — for a non-empty list that is admissible in this
+    document (not HTML-only, or the document is HTML). -/
+theorem not_compl_html (A : List Sel) (h : Bool) (hA : A ≠ []) (hg : (!h || c.isHtml) = true) :
     matchList c l e (.mk A true h) = !matchList c l e (.mk A false h) := by
-  simp only [matchList_mk, hg, if_true]
-  cases matchAny (if h = true then c.htmlOnly else c) l e A <;> rfl
+  rw [matchList_neg, matchList_pos, hg]
+  cases A with
+  | nil => exact absurd rfl hA
+  | cons s rest => simp
 
 /-- … and the exact statement of what happens otherwise: an HTML-only list never matches in a
     non-HTML document, negated or not.  (So there `:not(A)` is *not* the complement of `:is(A)`:
@@ -71,30 +86,30 @@ theorem html_only_never_in_xml (A : List Sel) (n h : Bool) (hh : h = true) (hx :
     matchList c l e (.mk A n h) = false := by
   simp [matchList_mk, hh, hx]
 
-/-- Both cases in one equation. -/
+/-- All cases in one equation. -/
 theorem not_compl_general (A : List Sel) (h : Bool) :
-    matchList c l e (.mk A true h) = ((!h || c.isHtml) && !matchList c l e (.mk A false h)) := by
-  simp only [matchList_mk]
-  split
-  · rename_i hg; rw [hg]; cases matchAny (if h = true then c.htmlOnly else c) l e A <;> rfl
-  · rename_i hg; simp only [Bool.not_eq_true] at hg; rw [hg]; rfl
+    matchList c l e (.mk A true h) =
+      ((!h || c.isHtml) && !A.isEmpty && !matchList c l e (.mk A false h)) := by
+  rw [matchList_neg, matchList_pos]
+  cases (!h || c.isHtml) <;> simp
 
 /-- `:not(A, B)` is the complement of `:is(A) ∪ :is(B)` (De Morgan). -/
-theorem not_list_compl (A B : List Sel) (h : Bool) (hg : (!h || c.isHtml) = true) :
+theorem not_list_compl (A B : List Sel) (h : Bool) (hAB : A ++ B ≠ []) (hg : (!h || c.isHtml) = true) :
     matchList c l e (.mk (A ++ B) true h) =
       !(matchList c l e (.mk A false h) || matchList c l e (.mk B false h)) := by
-  rw [not_compl_html c l e (A ++ B) h hg, list_union]
+  rw [not_compl_html c l e (A ++ B) h hAB hg, list_union]
 
-/-- De Morgan, second form: `:not(A, B)` = `:not(A)` ∩ `:not(B)`. -/
-theorem not_list_inter (A B : List Sel) (h : Bool) (hg : (!h || c.isHtml) = true) :
+/-- De Morgan, second form: `:not(A, B)` = `:not(A)` ∩ `:not(B)` (both parts non-empty). -/
+theorem not_list_inter (A B : List Sel) (h : Bool) (hA : A ≠ []) (hB : B ≠ [])
+    (hg : (!h || c.isHtml) = true) :
     matchList c l e (.mk (A ++ B) true h) =
       (matchList c l e (.mk A true h) && matchList c l e (.mk B true h)) := by
-  rw [not_list_compl c l e A B h hg, not_compl_html c l e A h hg, not_compl_html c l e B h hg,
-    Bool.not_or]
+  rw [not_list_compl c l e A B h (by simp [hA]) hg, not_compl_html c l e A h hA hg,
+    not_compl_html c l e B h hB hg, Bool.not_or]
 
-/-- Double negation: `:not(:not(A))` is `:is(A)` (for an admissible inner list; the outer wrapper
-    list is not HTML-only). -/
-theorem not_not (rel : SelList) (rt : Rel) (A : List Sel) (h : Bool)
+/-- Double negation: `:not(:not(A))` is `:is(A)` (for a non-empty admissible inner list; the outer
+    wrapper list is not HTML-only). -/
+theorem not_not (rel : SelList) (rt : Rel) (A : List Sel) (h : Bool) (hA : A ≠ [])
     (hg : (!h || c.isHtml) = true) (hrel : rel.nonEmpty = false) :
     matchList c l e (.mk [.mk none [] [] [] [] [.mk A true h] rel rt [] [] 0] true false) =
       matchList c l e (.mk A false h) := by
@@ -102,7 +117,7 @@ theorem not_not (rel : SelList) (rt : Rel) (A : List Sel) (h : Bool)
   rw [matchList_mk]
   simp only [Bool.not_false, Bool.true_or, if_true, Bool.false_eq_true, if_false, matchAny_cons,
     matchAny_nil, Bool.or_false, e1, matchSubs_cons, matchSubs_nil, Bool.and_true,
-    not_compl_html c l e A h hg]
+    not_compl_html c l e A h hA hg, List.isEmpty_cons]
   have e2 : matchSel c l e (.mk none [] [] [] [] [] rel rt [] [] 0) = true := by
     unfold matchSel
     simp [matchTag, hasFlag, hrel, matchNths, matchAttributes, SEL_DEFINED, SEL_ROOT, SEL_SCOPE,
@@ -122,11 +137,14 @@ theorem monotone_right (A B : List Sel) (h : Bool) (hm : matchList c l e (.mk B 
     matchList c l e (.mk (A ++ B) false h) = true := by
   rw [list_union, hm, Bool.or_true]
 
-/-- Dually, adding alternatives to a `:not(…)` never adds a result. -/
-theorem antitone_not (A B : List Sel) (h : Bool) (hm : matchList c l e (.mk (A ++ B) true h) = true) :
+/-- Dually, adding alternatives to a non-empty `:not(…)` never adds a result. -/
+theorem antitone_not (A B : List Sel) (h : Bool) (hA : A ≠ [])
+    (hm : matchList c l e (.mk (A ++ B) true h) = true) :
     matchList c l e (.mk A true h) = true := by
   rw [not_compl_general] at hm ⊢
   rw [list_union] at hm
+  have hne : A.isEmpty = false := by cases A <;> simp_all
+  rw [hne]
   revert hm
   cases (!h || c.isHtml) <;> cases matchList c l e (.mk A false h) <;> simp
 
@@ -176,7 +194,7 @@ theorem subs_perm {S T : List SelList} (hp : List.Perm S T) :
 
 /-- A list that is not HTML-only is evaluated under the caller's context, unchanged. -/
 theorem matchList_plain_ctx (A : List Sel) (n : Bool) :
-    matchList c l e (.mk A n false) = (matchAny c l e A != n) := by
+    matchList c l e (.mk A n false) = (!A.isEmpty && (matchAny c l e A != n)) := by
   simp [matchList_mk]
 
 /-- An HTML-only list is evaluated under `{'html': NS_XHTML}` / `iframe_restrict = True`, and only
@@ -185,7 +203,8 @@ theorem matchList_plain_ctx (A : List Sel) (n : Bool) :
 theorem matchList_html_ctx (A : List Sel) (n : Bool) :
     matchList c l e (.mk A n true) =
       (if c.isHtml then
-        (matchAny { c with namespaces := [("html".toStr, NS_XHTML)], iframeRestrict := true } l e A != n)
+        (!A.isEmpty &&
+          (matchAny { c with namespaces := [("html".toStr, NS_XHTML)], iframeRestrict := true } l e A != n))
        else false) := by
   rw [matchList_mk]
   simp only [Bool.not_true, Bool.false_or, if_true]
@@ -243,8 +262,8 @@ theorem select_monotone (A B : List Sel) (h : Bool) (tag : Loc) (limit : Int) (h
   (select_union c A B h tag limit hl x).mpr (Or.inl hx)
 
 /-- `select(':not(A)')` and `select(':is(A)')` partition the non-document element descendants
-    (admissible list). -/
-theorem select_not_compl (A : List Sel) (h : Bool) (hg : (!h || c.isHtml) = true) (tag : Loc)
+    (non-empty admissible list). -/
+theorem select_not_compl (A : List Sel) (h : Bool) (hA : A ≠ []) (hg : (!h || c.isHtml) = true) (tag : Loc)
     (limit : Int) (hl : limit < 1) (x : Loc)
     (hd : x ∈ c.tagDescendants tag false) (hdoc : x.isDoc = false) :
     x ∈ selectIn c (.mk A true h) tag limit ↔ x ∉ selectIn c (.mk A false h) tag limit := by
@@ -255,7 +274,7 @@ theorem select_not_compl (A : List Sel) (h : Bool) (hg : (!h || c.isHtml) = true
   · rename_i e' ks hf
     rw [hf] at hdoc
     simp only at hdoc
-    rw [not_compl_html c x e' A h hg, hdoc]
+    rw [not_compl_html c x e' A h hA hg, hdoc]
     cases matchList c x e' (.mk A false h) <;> simp
   · rename_i hne
     have : x.isTag = true := (List.mem_filter.mp hd).2
